@@ -13,7 +13,9 @@ import (
 
 	"github.com/jensneuse/abstractlogger"
 	"google.golang.org/grpc"
+	"google.golang.org/grpc/codes"
 	"google.golang.org/grpc/credentials/insecure"
+	"google.golang.org/grpc/status"
 	"google.golang.org/grpc/test/bufconn"
 	"google.golang.org/protobuf/proto"
 	"google.golang.org/protobuf/reflect/protoreflect"
@@ -106,6 +108,15 @@ func (m *memoConn) Invoke(ctx context.Context, method string, args any, reply an
 			e.resp, e.err = proto.MarshalOptions{Deterministic: true}.Marshal(out.Interface())
 		}
 	})
+	if e.err != nil && status.Code(e.err) == codes.Canceled {
+		// a call cancelled because a sibling RPC of the same Load failed says nothing about the
+		// service: do not memoise it
+		m.mu.Lock()
+		if m.entries[key] == e {
+			delete(m.entries, key)
+		}
+		m.mu.Unlock()
+	}
 	if e.err == nil && !first {
 		proto.Reset(out.Interface())
 		if uerr := proto.Unmarshal(e.resp, out.Interface()); uerr != nil {
